@@ -82,8 +82,9 @@ class C06(Prop):
                                        "ord_index": 0, "strings": strings, "cond": c}]}
             rs = json.loads(json.dumps(rs))
             return {"rs": rs, "mem": rng.choice(ruleset.MEMS).hex()}
-        rs = ruleset.gen_ruleset(rng, max_rules=4, depth=3, poison=60)
-        mem = rng.choice(ruleset.MEMS)
+        nc = rng.chance(1, 4)       # nocase strings met in another case than written
+        rs = ruleset.gen_ruleset(rng, max_rules=4, depth=3, poison=60, nocase=50 if nc else 0)
+        mem = rng.choice(ruleset.MIXED_MEMS if nc else ruleset.MEMS)
         return {"rs": rs, "mem": mem.hex()}
 
     def generate(self, ctx, rng, n):
